@@ -1027,12 +1027,14 @@ class Gridder(GeospatialGrid):
 
             segment_distances_repeated = np.repeat(segment_distances, count_subsegments)
 
-            # A zero-length segment (repeated point) has exactly one sub-segment,
-            # which keeps the segment's whole value.
+            # A zero-length segment (repeated point) keeps the segment's whole value.
+            # It normally has one sub-segment; two positions that differ only in their
+            # last bits can still lie on different sides of a grid line, then the
+            # value is shared equally between the sub-segments.
             subsegment_distance_fractions = np.divide(
                 subsegment_distances,
                 segment_distances_repeated,
-                out=np.ones_like(subsegment_distances),
+                out=1.0 / np.repeat(count_subsegments, count_subsegments),
                 where=segment_distances_repeated != 0,
             )
 
